@@ -417,13 +417,20 @@ def run(ctx):
         for mode, stream, cand, prev in make_cases(rng, tree, per_tree, big):
             if mode == 'wire' and not dtcodec.is_json_value(cand):
                 mode = 'py'
+            if prev is not None and rng.random() < 0.35:
+                w = gen.push_outside(rng, tree, prev)      # reported by the hardware: outside the limits
+                if w is not None:
+                    prev = w
+                    res.count('previous.pushed-outside-limits')
             if prev is not None:
-                # a previous value is one that validation has accepted (precondition of the quantifier, not a verdict):
-                # e.g. the limit of a scaled type with scale < ulp(limit)/2 is in the declared set but is never accepted
-                o = _outcome(lambda: real.validate(prev))
-                if o[0] != 'ok' or dtcodec.canon(dtcodec.py_to_json(o[1])) != dtcodec.canon(dtcodec.py_to_json(prev)):
-                    res.count('previous.dropped(not accepted by validate)')
+                # a previous value is whatever the parameter may hold: what `dt(x)` returned for some x (driver updates are
+                # converted by __call__, which does not check limits) - a precondition of the quantifier, not a verdict
+                o = _outcome(lambda: real(prev))
+                if o[0] != 'ok' or not dtcodec.encodable(o[1]):
+                    res.count('previous.dropped(not accepted by __call__)')
                     prev = None
+                else:
+                    prev = o[1]
             res.count('previous=' + ('none' if prev is None else 'given'))
             if not (dtcodec.encodable(cand) and dtcodec.encodable(prev)):
                 continue
@@ -431,6 +438,32 @@ def run(ctx):
             if via:
                 c['via_get_datatype'] = True
             cases.append((c, stream))
+        # candidates built relative to the value the parameter holds (validate-accepted and merely call-accepted ones)
+        nrel = max(4, per_tree // 5)
+        pool = []
+        for _ in range(3):
+            v = gen.gen_valid(rng, tree)
+            if v is None:
+                continue
+            pool.append(('held:valid', v))
+            w = gen.push_outside(rng, tree, v)
+            if w is not None:
+                pool.append(('held:out-of-limits', w))
+        for label, raw in pool:
+            o = _outcome(lambda: real(raw))
+            if o[0] != 'ok' or not dtcodec.encodable(o[1]):
+                continue
+            held = o[1]
+            res.count('previous.' + label)
+            for wire in (True, False):
+                for cand in gen.relative_candidates(rng, tree, held, wire, max(2, nrel // 4)):
+                    mode = 'wire' if wire and dtcodec.is_json_value(cand) else 'py'
+                    if not dtcodec.encodable(cand):
+                        continue
+                    c = proto_case(tree, mode, dtcodec.py_to_json(cand), dtcodec.py_to_json(held))
+                    if via:
+                        c['via_get_datatype'] = True
+                    cases.append((c, 'relative'))
         if any(k in ('string', 'enum', 'struct') for k in dtcodec.tree_kinds(tree)):
             for s in surrogate_cases(rng, tree, 2):
                 surrogates.append((tree, s))
